@@ -353,11 +353,9 @@ class Grammar:
 
         starting_symbol = self.starting_symbol
         get_gengy(starting_symbol)["weight"] = weights[starting_symbol]
-        nodes = list()
-        for node in self.considered_subtypes:
-            if node in weights:
-                get_gengy(node)["weight"] = weights[node]
-            nodes.append(node)
+        for node in weights:
+            get_gengy(node)["weight"] = weights[node]
+        nodes = list(self.considered_subtypes)
         self.__init__(starting_symbol, nodes, self.expansion_depthing)
         self.register_type(starting_symbol)
         self.preprocess()
